@@ -1,19 +1,46 @@
 from vlib import H
 PROPERTY = 'C60'
 LEVEL = 'model_checking'
-CLAIM = ('TODO')
+CLAIM = ('Real netaddress.cpp/.h code (CSubNet ctors/Match/IsValid/operator==/<, static NetmaskBits, CNetAddr::SetLegacyIPv6, V1 and BIP155 V2 (un)serialization incl. '
+         'SetNetFromBIP155Network/GetBIP155Network/CService ser, IsValid/IsRoutable/RFC-range predicates/GetLinkedIPv4) executed symbolically and compared with an independent integer-prefix reference '
+         'written from the property text, BIP155 and the RFC prefixes: (1) CSubNet(a,len) is valid iff IPv4/len<=32 or IPv6/len<=128 and Match(b) iff b valid, same network and first len bits equal, for all '
+         '16-byte legacy addresses a,b (IPv4-mapped, internal, TORv2-mapped and plain IPv6 forms) and all 256 len values; netmask ctor valid iff same family and mask contiguous, Match iff equal under mask, and equal to the CIDR form; '
+         'single-host subnets (IPv4/IPv6/Tor/I2P/CJDNS) match exactly the equal valid address, internal gives an invalid subnet. (2) V1: every 16-byte address + port decodes to the network its prefix demands, re-encodes to the same bytes '
+         '(TORv2-mapped -> all-zero), and its BIP155 encoding equals id|compactsize|bytes|port and decodes to an equal CService. BIP155 decoding over enumerated (id,length) shapes with symbolic bytes: throws exactly for >512, non-canonical length '
+         'or wrong length of a known network; unknown ids and embedded IPv4/TORv2-in-IPv6 are skipped as the invalid address consuming exactly the announced bytes; accepted addresses re-encode to the received bytes. '
+         '(3) All RFC/validity/routability predicates and the linked-IPv4 extraction equal the prefix tables for every legacy address. Not covered: string printing/parsing (ToString/LookupSubNet), BanMan (file, clock, signals), discouragement filter.')
 LINK = ['netaddress.cpp']
 V4, V6, INT = 4, 6, 1
-pairs = [{'CA': a, 'CB': b} for a in (V4, V6, INT) for b in (V4, V6, INT) if not (a == INT and b != INT)]
-triples = [{'CA': a, 'CM': m, 'CB': b} for (a, m, b) in ((V4, V4, V4), (V6, V6, V6), (V4, V4, V6), (V6, V6, V4), (V4, V6, V4), (V6, V4, V6), (INT, V6, V6), (V6, INT, V6), (V4, V4, INT))]
+ALL = [(a, b) for a in (V4, V6, INT) for b in (V4, V6, INT) if not (a == INT and b != INT)]
+QP = [(V4, V4), (V6, V6), (V4, V6), (INT, INT)]
+pairs = lambda l: [{'CA': a, 'CB': b} for a, b in l]
+TALL = [(V4, V4, V4), (V6, V6, V6), (V4, V4, V6), (V6, V6, V4), (V4, V6, V4), (V6, V4, V6), (INT, V6, V6), (V6, INT, V6), (V4, V4, INT)]
+TQ = [(V4, V4, V4), (V6, V6, V6), (V4, V6, V4), (INT, V6, V6)]
+triples = lambda l: [{'CA': a, 'CM': m, 'CB': b} for a, m, b in l]
+OVL = [{'NETSEL': 4}, {'NETSEL': 5}, {'NETSEL': 6}]
+def d(i, l, **kw):
+    v = {'NETID': i, 'LEN': l}; v.update(kw); return v
+DEC_LONG = [d(0, 252), d(0, 253), d(0, 513), d(2, 253)]
+DEC_Q = [d(1, 4), d(2, 16, PFX=0), d(2, 16, PFX=1), d(2, 16, PFX=2), d(4, 32), d(5, 32), d(6, 16), d(0, 7), d(1, 16), d(6, 32), d(1, 4, NONCANON=1), d(0, 512), d(1, 513)]
+DEC_T = DEC_Q + DEC_LONG + [d(2, 4), d(4, 16), d(2, 16, PFX=3), d(1, 3), d(1, 5), d(1, 0), d(2, 15), d(2, 17), d(4, 31), d(4, 33), d(5, 16), d(5, 33), d(6, 15), d(6, 4), d(0, 0), d(0, 4), d(0, 16), d(0, 32), d(0, 10)]
+COMMON = dict(link=LINK, nofmt=True, timeout=300, diff_runs=16)
 HARNESSES = [
-    H('subnet_cidr', 'subnet.cpp', 'h_subnet_cidr', link=LINK, nofmt=True, variants=pairs, unwind=20, timeout=300,
+    H('subnet_cidr', 'subnet.cpp', 'h_subnet_cidr', variants=pairs(QP), tvariants=pairs(ALL), unwind=20,
       functions=['CSubNet::CSubNet(const CNetAddr&, uint8_t)', 'CSubNet::Match', 'CSubNet::IsValid', 'CNetAddr::SetLegacyIPv6', 'CNetAddr::IsValid'],
-      bounds='all pairs of 16-byte legacy addresses x all 256 prefix lengths'),
-    H('subnet_mask', 'subnet.cpp', 'h_subnet_mask', link=LINK, nofmt=True, variants=triples, unwind=20, timeout=300,
+      bounds='all pairs of 16-byte legacy addresses (case split by class: IPv4-mapped / internal-prefixed / other) x all 256 prefix lengths; quick: 4 class pairs, thorough: all 7', assumptions=['assert-then-pin: after the real constructor ran, m_net and m_addr.size() are asserted equal to the class constants and stored back (no-op) so later code sees concrete sizes'], **COMMON),
+    H('subnet_mask', 'subnet.cpp', 'h_subnet_mask', variants=triples(TQ), tvariants=triples(TALL), unwind=20,
       functions=['CSubNet::CSubNet(const CNetAddr&, const CNetAddr&)', 'NetmaskBits', 'operator==(CSubNet)', 'operator<(CSubNet)'],
-      bounds='all triples (address, mask, probe) of 16-byte legacy addresses'),
-    H('subnet_single', 'subnet.cpp', 'h_subnet_single', link=LINK, nofmt=True, variants=pairs + [{'NETSEL': 4}, {'NETSEL': 5}, {'NETSEL': 6}], unwind=36, timeout=300,
+      bounds='all triples (address, mask, probe) of 16-byte legacy addresses', **COMMON),
+    H('subnet_single', 'subnet.cpp', 'h_subnet_single', variants=pairs([(V4, V4), (V6, V6), (INT, INT)]) + OVL, tvariants=pairs(ALL) + OVL, unwind=36,
       functions=['CSubNet::CSubNet(const CNetAddr&)', 'CNetAddr::UnserializeV2Stream', 'operator==(CNetAddr)'],
-      bounds='all pairs of addresses of each network'),
+      bounds='all pairs of addresses of each network', **COMMON),
+    H('v1_roundtrip', 'addrser.cpp', 'h_v1_roundtrip', variants=[{'CA': V4}, {'CA': V6}, {'CA': INT}], unwind=36,
+      functions=['CNetAddr::UnserializeV1Stream/SerializeV1Stream/SerializeV1Array', 'CNetAddr::SerializeV2Stream/UnserializeV2Stream', 'CService::Serialize/Unserialize', 'operator==/<(CService)'],
+      bounds='all 16-byte legacy addresses x all ports', **COMMON),
+    H('v2_decode', 'addrser.cpp', 'h_v2_decode', variants=DEC_Q, tvariants=DEC_T, unwind=40,
+      functions=['CNetAddr::UnserializeV2Stream', 'CNetAddr::SetNetFromBIP155Network', 'CNetAddr::SerializeV2Stream', 'CNetAddr::GetBIP155Network', 'ReadCompactSize', 'WriteCompactSize'],
+      bounds='BIP155 (id, length) shapes enumerated; address bytes symbolic', **COMMON),
+    H('predicates', 'addrser.cpp', 'h_predicates', variants=[{'CA': V4}, {'CA': V6}, {'CA': INT}], unwind=20,
+      functions=['CNetAddr::IsRFC1918/2544/6598/5737/3927/3849/3964/4193/4380/4843/7343/4862/6052/6145', 'IsLocal', 'IsValid', 'IsRoutable', 'IsBindAny', 'GetNetwork', 'GetNetClass', 'HasLinkedIPv4', 'GetLinkedIPv4'],
+      bounds='all 16-byte legacy addresses', **COMMON),
 ]
